@@ -272,7 +272,10 @@ func Check(res *Result) *ReadBack {
 			if w, ok := want[pdf.NewReference(n, gens[n])]; ok && w.IsStream {
 				isStream = true // every stream is looked at (C03 takes its decoding oracle from here)
 			}
-			if n < 40 || n%101 == 0 || d1 < 15 || d1 > 9985 || d2 < 60 || isStream {
+			_, user := gens[n]
+			// numbers the program does not know: the objects the Writer makes for itself (object
+			// streams, indirect lengths), few, and C03's oracle for encrypted object streams
+			if n < 40 || n%101 == 0 || d1 < 15 || d1 > 9985 || d2 < 60 || isStream || !user {
 				thin = append(thin, n)
 			}
 		}
@@ -283,7 +286,9 @@ func Check(res *Result) *ReadBack {
 		ref := pdf.NewReference(n, gens[n])
 		mode := byte('k')
 		k := 0
-		if w, ok := want[ref]; ok && w.KindOnly {
+		if w, ok := want[ref]; !ok && res.UnsureRefs[ref] {
+			mode = 'k' // refused under a number picked blindly: it may be an object of the Writer's own
+		} else if ok && w.KindOnly {
 			mode = 'k'
 		} else if ok && w.Declared {
 			mode, k = 'c', w.NArgs
